@@ -38,6 +38,7 @@ class Account:
     code: bytes = b""
     storage: dict = field(default_factory=dict)
     balance: int = 0
+    nonce: int = 0
 
 
 @dataclass
@@ -512,14 +513,14 @@ class EVM:
                     self.flags.add("insufficient-funds")
                     retdata = b""
                     push(0)
-                elif new in w.accounts and (w.accounts[new].code or w.accounts[new].storage):
+                elif new in w.accounts and (w.accounts[new].code or w.accounts[new].storage or w.accounts[new].nonce):
                     self.flags.add("address-collision")
                     retdata = b""
                     push(0)
                 else:
                     snap = w.snapshot()
                     bal0 = w.accounts[new].balance if new in w.accounts else 0
-                    w.accounts[new] = Account(code=b"", storage={}, balance=bal0)
+                    w.accounts[new] = Account(code=b"", storage={}, balance=bal0, nonce=1)
                     sub = Msg(caller=creator, target=new, code_addr=new, value=value, data=b"", origin=origin, static=False, depth=msg.depth + 1, is_create=True, code=init)
                     sublogs = []
                     ok, data, _ = self._frame(sub, sublogs, transfer=True)
